@@ -140,7 +140,20 @@ func cachePut(q, solver string) {
 	os.WriteFile(filepath.Join(d, k), []byte(solver), 0o644)
 }
 
+// solverSlots bounds the number of solver processes running at once (one per core): a race of three solvers per
+// obligation times sixteen obligations would otherwise oversubscribe the machine and turn 5 s queries into timeouts.
+var solverSlots = make(chan struct{}, 16)
+
 func runSolverCtx(parent context.Context, s solverSpec, file string, timeoutS int) SolverResult {
+	select {
+	case solverSlots <- struct{}{}:
+	case <-parent.Done():
+		return SolverResult{Status: "cancelled", Solver: s.name}
+	}
+	defer func() { <-solverSlots }()
+	if parent.Err() != nil {
+		return SolverResult{Status: "cancelled", Solver: s.name}
+	}
 	argv := s.argv(file, timeoutS)
 	ctx, cancel := context.WithTimeout(parent, time.Duration(timeoutS+3)*time.Second)
 	defer cancel()
